@@ -11,6 +11,13 @@ top (last element) of the slice.  The three-state marking is a function `Nat →
 * `inner`    = that loop (fuel; `sort_terminates` in Props/C41 proves the fuel suffices)
 * `sortRoots`= `for _, root := range roots`
 `limit = some k` models a consumer whose `yield` returns false at the k-th node.
+
+Re-use: `Sorter` is the scratch space (marks + stack) that lives between passes.
+`Sorter.sortCall` = calling `s.Sort(roots, dag)` (creates the sequence; touches nothing),
+`Sorter.range` = one pass (`range`) over a sequence: the loop runs on the scratch space as it
+is, and the deferred function clears it however the pass ends (completion, break, panic).
+`Sorter.nest` = a pass whose loop body, at its j-th node, ranges another sequence of the same
+Sorter: the `iterating` flag is set, so that inner pass panics ("called reëntrantly").
 -/
 namespace PCV.Toposort
 
@@ -133,5 +140,42 @@ def sort (g : Graph) (roots : List Nat) (limit : Option Nat := none) : Result :=
   | .panic out e => .panic out.reverse e
   | .stopped out => .stopped out.reverse
   | .outOfFuel => .outOfFuel
+
+/-- one pass of the loop of `Sorter.Sort`'s iterator on scratch space `(c, stack)` -/
+def runFrom (g : Graph) (roots : List Nat) (limit : Option Nat) (c : Colors) (stack : List Nat) :
+    Result :=
+  match sortRoots g limit (fuelFor g) roots { c := c, stack := stack, out := [] } with
+  | .done cfg => .ok cfg.out.reverse
+  | .panic out e => .panic out.reverse e
+  | .stopped out => .stopped out.reverse
+  | .outOfFuel => .outOfFuel
+
+/-- the fields of the Go `Sorter` that survive between passes (`iterating` is only ever set
+    during a pass; see `Sorter.nest`) -/
+structure Sorter where
+  c : Colors
+  stack : List Nat
+
+def Sorter.fresh : Sorter := { c := fun _ => .unsorted, stack := [] }
+
+/-- `s.Sort(roots, dag)`: allocates the map if it is nil and returns the closure; the scratch
+    space is not touched -/
+def Sorter.sortCall (s : Sorter) : Sorter := s
+
+/-- one `range` over a sequence made by `s.Sort(roots, dag)`; the second component is the
+    Sorter after the deferred `clear(s.state); clear(s.stack); s.stack = s.stack[:0]` -/
+def Sorter.range (s : Sorter) (g : Graph) (roots : List Nat) (limit : Option Nat) : Result × Sorter :=
+  (runFrom g roots limit s.c s.stack, Sorter.fresh)
+
+inductive NestResult where
+  | plain (r : Result)                 -- the outer pass ended before its j-th node
+  | reentrant (yielded : List Nat)     -- "Sort() called reëntrantly" after `yielded`
+deriving Repr, DecidableEq
+
+/-- a pass whose body, at the j-th node, ranges another sequence of the same Sorter -/
+def Sorter.nest (s : Sorter) (g : Graph) (roots : List Nat) (j : Nat) : NestResult × Sorter :=
+  match runFrom g roots (some j) s.c s.stack with
+  | .stopped out => (.reentrant out, Sorter.fresh)
+  | r => (.plain r, Sorter.fresh)
 
 end PCV.Toposort
